@@ -27,6 +27,9 @@ func PatternModel(r *rand.Rand, n int, o PatOpts) ref.PatModel {
 		switch {
 		case r.Intn(1000) < o.Class:
 			nl := 1 + r.Intn(3)
+			if o.Class > 900 {
+				nl = 2 + r.Intn(3) // up to [acgt]
+			}
 			l := make([]byte, nl)
 			for k := range l {
 				l[k] = ACGT[r.Intn(4)]
